@@ -80,20 +80,58 @@ SmpGetRandomInteger(N) == [shape |-> "low_shift", bits |-> N, exact |-> FALSE, c
 \* getRandomRange(a, b): range_ = b - a - 1; bits = size(range_); value = getRandomInteger(bits) until value <= range_; a + value
 SmpGetRandomRange(range) == LET bits == SmpBitLen(range)
    IN [shape |-> "low_shift", bits |-> bits, exact |-> FALSE, cmp |-> "le", bound |-> SmpBytesOfNat(range, SmpNBytes(bits))]
+\* ------------------------------------------------------------------ the public functions by name, small arguments:
+\* an instance is [api, p1, p2, p3]; SmpSpOf = its sampler, SmpRes = its result from the accepted candidate, SmpRng = its
+\* documented range (element j is lo + step * j, j < size)
+SmpI(api, p1, p2, p3) == [api |-> api, p1 |-> p1, p2 |-> p2, p3 |-> p3]
+SmpNumChoices(i) == CASE i.api = "randrange" -> SmpCeilDiv(i.p2 - i.p1, i.p3)
+                   [] i.api = "randint" -> (i.p2 + 1) - i.p1
+                   [] i.api = "choice" -> i.p1
+\* the documented range as [lo, step, size]: element j is lo + step * j
+SmpRng(i) == CASE i.api = "random_max" -> [lo |-> 0, step |-> 1, size |-> 2 ^ i.p1]
+            [] i.api = "random_exact" -> [lo |-> 2 ^ (i.p1 - 1), step |-> 1, size |-> 2 ^ (i.p1 - 1)]
+            [] i.api = "random_range" -> [lo |-> i.p1, step |-> 1, size |-> (i.p2 - i.p1) + 1]
+            [] i.api = "random_range_excl" -> [lo |-> i.p1, step |-> 1, size |-> i.p2 - i.p1]
+            [] i.api = "getrandbits" -> [lo |-> 0, step |-> 1, size |-> 2 ^ i.p1]
+            [] i.api = "randrange" -> [lo |-> i.p1, step |-> i.p3, size |-> SmpNumChoices(i)]
+            [] i.api = "randint" -> [lo |-> i.p1, step |-> 1, size |-> SmpNumChoices(i)]
+            [] i.api = "choice" -> [lo |-> 0, step |-> 1, size |-> i.p1]
+            [] i.api = "getRandomInteger" -> [lo |-> 0, step |-> 1, size |-> 2 ^ i.p1]
+            [] i.api = "getRandomRange" -> [lo |-> i.p1, step |-> 1, size |-> i.p2 - i.p1]
+            [] i.api = "getRandomNBitInteger" -> [lo |-> 2 ^ (i.p1 - 1), step |-> 1, size |-> 2 ^ (i.p1 - 1)]
+SmpRngElem(i, j) == SmpRng(i).lo + (SmpRng(i).step * j)
+SmpRngSet(i) == {SmpRngElem(i, j) : j \in 0..(SmpRng(i).size - 1)}
+SmpSpOf(i) == CASE i.api = "random_max" -> SmpIntegerRandom(i.p1, FALSE)
+               [] i.api = "random_exact" -> SmpIntegerRandom(i.p1, TRUE)
+               [] i.api = "random_range" -> SmpIntegerRandomRange(i.p2 - i.p1)
+               [] i.api = "random_range_excl" -> SmpIntegerRandomRange((i.p2 - 1) - i.p1)
+               [] i.api = "getrandbits" -> SmpGetrandbits(i.p1)
+               [] i.api \in {"randrange", "randint", "choice"} -> SmpRandrange(SmpNumChoices(i))
+               [] i.api = "getRandomInteger" -> SmpGetRandomInteger(i.p1)
+               [] i.api = "getRandomRange" -> SmpGetRandomRange((i.p2 - i.p1) - 1)
+               [] i.api = "getRandomNBitInteger" -> SmpGetRandomInteger(i.p1 - 1)
+\* result of the function from the accepted candidate value c
+SmpRes(i, c) == CASE i.api \in {"random_max", "random_exact", "getrandbits", "getRandomInteger", "choice"} -> c
+                  [] i.api \in {"random_range", "random_range_excl", "getRandomRange", "randint"} -> i.p1 + c
+                  [] i.api = "randrange" -> i.p1 + (i.p3 * c)
+                  [] i.api = "getRandomNBitInteger" -> c + 2 ^ (i.p1 - 1)         \* value | 2^(N-1), value < 2^(N-1)
 \* a sampler that reduces modulo the range size instead of rejecting: NOT what the library does; the uniformity check must refuse it
 SmpModuloVariant(sp) == [sp EXCEPT !.cmp = "none"]
 -----------------------------------------------------------------------------
 (* Multi-draw selections of StrongRandom, as functions of the tape.  Results: [st, out, drawn].
    shuffle(x): for i = len-1 downto 1: j = randrange(0, i+1); swap x[i], x[j]            (Fisher-Yates)
    sample(population, k): k times: r = randrange(len) until r not yet selected; append population[r] *)
-Swap(arr, i, j) == [arr EXCEPT ![i] = arr[j], ![j] = arr[i]]
-RECURSIVE SmpShuffleFrom(_,_,_,_)
-SmpShuffleFrom(arr, i, tape, pos) ==          \* i = the 0-based index of the loop, arr is 1-based
+SmpSwap(arr, i, j) == [arr EXCEPT ![i] = arr[j], ![j] = arr[i]]
+RECURSIVE SmpShuffleFrom(_,_,_,_,_)
+\* i = the 0-based index of the loop, arr is 1-based; naive = TRUE draws j from the whole list at every step (the classic biased
+\* shuffle, NOT the library: the fibre count must refuse it)
+SmpShuffleFrom(arr, i, tape, pos, naive) ==
    IF i < 1 THEN [st |-> "done", out |-> arr, drawn |-> pos]
-   ELSE LET r == SmpRunFrom(SmpRandrange(i + 1), tape, [SmpInit EXCEPT !.drawn = pos]) IN
+   ELSE LET r == SmpRunFrom(SmpRandrange(IF naive THEN Len(arr) ELSE i + 1), tape, [SmpInit EXCEPT !.drawn = pos]) IN
         IF r.st # "done" THEN [st |-> "starved", out |-> arr, drawn |-> r.drawn]
-        ELSE SmpShuffleFrom(Swap(arr, i + 1, SmpVal(r.cb) + 1), i - 1, tape, r.drawn)
-SmpShuffle(n, tape) == SmpShuffleFrom([i \in 1..n |-> i - 1], n - 1, tape, 0)        \* shuffles the list [0, 1, ..., n-1]
+        ELSE SmpShuffleFrom(SmpSwap(arr, i + 1, SmpVal(r.cb) + 1), i - 1, tape, r.drawn, naive)
+SmpShuffle(n, tape) == SmpShuffleFrom([i \in 1..n |-> i - 1], n - 1, tape, 0, FALSE)        \* shuffles the list [0, 1, ..., n-1]
+SmpShuffleNaive(n, tape) == SmpShuffleFrom([i \in 1..n |-> i - 1], n - 1, tape, 0, TRUE)
 RECURSIVE SmpSampleFrom(_,_,_,_,_)
 SmpSampleFrom(n, k, out, tape, pos) ==
    IF Len(out) = k THEN [st |-> "done", out |-> out, drawn |-> pos]
